@@ -69,6 +69,7 @@ class Executor:
         # (the executor keeps copies: the caller's Cell objects may be used again - for a query, which rewrites their value - or changed;
         # forming the uids here belongs to the validation: an address that has none is rejected before anything is changed)
         new_cells = {cell.uid: Cell(cell.title, cell.column, cell.row, cell.value) for cell in cells}
+        kept_cells = {cell for cell in self._cells if cell.uid not in new_cells} | set(new_cells.values())
 
         for cell in cells:
             sheet = cell.title
@@ -78,7 +79,7 @@ class Executor:
             self._sheets_size[sheet]['last_row'] = max(row, self._sheets_size[sheet]['last_row'])
             self._sheets_size[sheet]['last_column'] = max(column, self._sheets_size[sheet]['last_column'])
 
-        self._cells = {cell for cell in self._cells if cell.uid not in new_cells} | set(new_cells.values())
+        self._cells = kept_cells
         self._cells_have_been_changed = True
         return self
 
